@@ -90,7 +90,16 @@ def _create_consumer(ctx, consumer_uuid, project, user, consumer_type_id,
     except exception.ConsumerExists:
         # Another thread created this consumer already, verify whether
         # the consumer type matches
-        consumer = consumer_obj.Consumer.get_by_uuid(ctx, consumer_uuid)
+        try:
+            consumer = consumer_obj.Consumer.get_by_uuid(ctx, consumer_uuid)
+        except exception.NotFound:
+            # ... and has removed it again (its own request failed and it
+            # cleaned up what it had created).
+            raise webob.exc.HTTPConflict(
+                'consumer %(uuid)s was created and removed by another '
+                'request while this one was being processed' %
+                {'uuid': consumer_uuid},
+                comment=errors.CONCURRENT_UPDATE)
         if must_not_exist:
             # The caller said (consumer generation None) that the consumer
             # must not exist, but a racing request has just created it.
